@@ -579,6 +579,33 @@ pub fn sweeps(thorough: bool) -> Vec<(Program, String)> {
 	add(prog(vec![st(vec![pl(Ty::Gen(1, vec![Ty::Gen(1, vec![Ty::Gen(1, vec![i32_()])])])), pl(Ty::Gen(1, vec![i32_()]))]), Def::Generic { shape: 0 }]), "generic nested three times");
 	add(prog(vec![st(vec![pl(Ty::Gen(1, vec![nm(2)])), pl(Ty::Gen(1, vec![nm(3)]))]), Def::Generic { shape: 0 }, st(vec![pl(i32_())]), st(vec![pl(i32_())])]), "generic at two structurally identical records");
 
+	// S7b: generic structs with a field that OWNS a named sub-node (logical type on [u8; N]: the
+	// fixed is named `<record fullname incl. instantiation hash>.<field>`), instantiated at two
+	// different arguments under one root, plus the single-instantiation controls
+	for shape in [3usize, 4, 5, 6] {
+		let g = |t: Ty| Ty::Gen(1, vec![t]);
+		let fam = |fields: Vec<FieldTy>| prog(vec![st(fields), Def::Generic { shape }, s2()]);
+		add(fam(vec![pl(g(i32_()))]), &format!("generic shape {shape} (owned fixed), one instantiation"));
+		add(fam(vec![pl(g(i32_())), pl(g(i32_())), pl(vec_(g(lf(Leaf::U16))))]), &format!("generic shape {shape} (owned fixed), one instantiation used three times"));
+		add(fam(vec![pl(g(i32_())), pl(g(str_()))]), &format!("generic shape {shape} (owned fixed) at i32 and String"));
+		add(fam(vec![pl(g(i32_())), pl(g(lf(Leaf::I64)))]), &format!("generic shape {shape} (owned fixed) at i32 and i64"));
+		add(fam(vec![pl(g(nm(2))), pl(g(str_())), pl(nm(2))]), &format!("generic shape {shape} (owned fixed) at a record and String"));
+		add(fam(vec![pl(vec_(g(i32_()))), pl(opt(g(str_())))]), &format!("generic shape {shape} (owned fixed) in Vec and Option"));
+		add(fam(vec![pl(bmap(g(str_()))), pl(bx(g(lf(Leaf::Bool))))]), &format!("generic shape {shape} (owned fixed) in map and Box"));
+		add(fam(vec![pl(g(g(i32_())))]), &format!("generic shape {shape} (owned fixed) nested in itself"));
+		add(fam(vec![pl(g(g(str_()))), pl(g(i32_()))]), &format!("generic shape {shape} (owned fixed) nested and at a third argument"));
+		add(prog(vec![st(vec![pl(nm(2)), pl(nm(3))]), Def::Generic { shape }, st(vec![pl(g(i32_()))]), st(vec![pl(g(str_()))])]), &format!("generic shape {shape} (owned fixed) in two sub-records"));
+	}
+	// other spelling of every logical-type name (`TimeMicros` for `time-micros` ...), i64 logical
+	// types over the full i64 domain (values >= 2^31)
+	for l in [Lg::Uuid, Lg::Date, Lg::TimeMillis, Lg::TimeMicros, Lg::TsMillis, Lg::TsMicros, Lg::DecBytes { scale: 3, precision: 12 }, Lg::DecFixed { size: 4, scale: 1, precision: 5 }, Lg::Duration] {
+		let alt = Lg::Alt(Box::new(l.clone()));
+		add(prog(vec![st(vec![FieldTy::Logical(alt.clone())])]), "logical type (other spelling) on a struct field");
+		add(prog(vec![st(vec![FieldTy::Logical(l), FieldTy::Logical(alt), pl(lf(Leaf::I64))])]), "logical type in both spellings next to a plain i64");
+	}
+	add(prog(vec![st(vec![FieldTy::Logical(Lg::CustomFixed(4)), FieldTy::Logical(Lg::CustomFixed(4)), FieldTy::Fixed(4)])]), "custom logical type on [u8; 4], twice, next to a plain [u8; 4]");
+	add(prog(vec![st(vec![pl(nm(1)), pl(nm(2))]), st(vec![FieldTy::Logical(Lg::CustomFixed(4))]), st(vec![FieldTy::Logical(Lg::CustomFixed(4)), FieldTy::Logical(Lg::Duration)])]), "records owning custom / duration fixed types under one root");
+
 	// S8: recursion
 	let list = |p: Ptr| st(vec![pl(lf(Leaf::I64)), pl(opt(ptr(p, nm(0))))]);
 	for p in [Ptr::Box, Ptr::Rc, Ptr::Arc] {
